@@ -20,6 +20,13 @@ def models(tier, seed):
     return [
         dict(name='MC_Counter', spec='MC_Counter', cfg='MC_Counter.cfg', coverage=True),
         dict(name='export', spec='MC_Counter', cfg='MC_Counter_export.cfg', workers=1),
+        # unbounded: InRange / ReturnIsOutput are inductive over all integers (Apalache, symbolic)
+        dict(name='APA_Counter inductive step', tool='apalache', spec='APA_Counter', init='IndInit',
+             inv='IndInv', length=1),
+        dict(name='APA_Counter base case', tool='apalache', spec='APA_Counter', init='Init',
+             inv='IndInv', length=0),
+        dict(name='APA_Counter too strong (sharpness)', tool='apalache', spec='APA_Counter', init='IndInit',
+             inv='TooStrong', length=1, expect_violation='TooStrong'),
     ]
 
 
